@@ -210,6 +210,10 @@ func genFaultRead(r *rand.Rand, i int) Scenario {
 		}
 		npers++
 	}
+	handOver := len(vocab) > 1 && r.Intn(2) == 0
+	if handOver {
+		sc.Ops = append(sc.Ops, Op{Op: "pl_open", Seg: seg, Field: "body", Term: B([]byte("common")), Pl: 705}, Op{Op: "pl_count", Pl: 705})
+	}
 	sc.Ops = append(sc.Ops, Op{Op: "dv_open", Seg: seg, R: 740, Fields: universeOf(&cfg)})
 	if len(b1) > 0 {
 		sc.Ops = append(sc.Ops, Op{Op: "dv_visit", R: 740, N: 0})
@@ -228,6 +232,16 @@ func genFaultRead(r *rand.Rand, i int) Scenario {
 	if npers > 1 && r.Intn(2) == 0 {
 		sc.Ops = append(sc.Ops, Op{Op: "it_open", Pl: 700 + 1, It: 720, Prealloc: 720, Freq: true, Norm: true, Locs: true},
 			Op{Op: "it_next", It: 720}, Op{Op: "it_next", It: 720})
+	}
+	// a list obtained before the failure is handed as prealloc to the lookup of another term (with deletions): the
+	// lookup fails half-way - and the caller goes on using the list it still holds
+	// (the list has no iteration of its own alive: recycling a list that an iterator still reads is the caller's fault)
+	if handOver {
+		v := vocab[r.Intn(len(vocab))]
+		sc.Ops = append(sc.Ops, Op{Op: "pl_open", Seg: seg, Field: v.Field, Term: v.Term, Pl: 705, Prealloc: 705,
+			Except: &DropSpec{Kind: "set", Docs: []int{r.Intn(len(b1))}}},
+			Op{Op: "pl_count", Pl: 705}, Op{Op: "it_open", Pl: 705, It: 731}, Op{Op: "it_next", It: 731}, Op{Op: "it_next", It: 731},
+			Op{Op: "it_open", Pl: 705, It: 732, Freq: true, Norm: true, Locs: true}, Op{Op: "it_next", It: 732}, Op{Op: "it_adv", It: 732, D: 2})
 	}
 	// DocsMatchingTerms over a list of several pairs (1-hit and general terms): the whole answer, nothing, or an error
 	if len(vocab) > 2 {
@@ -401,8 +415,23 @@ func genConcSched(r *rand.Rand, i int) Scenario {
 			after = append(after, Op{Op: "contains", Seg: seg, Field: f, Term: B([]byte("x")), ReuseD: true},
 				Op{Op: "dict", Seg: seg, Field: f, ReuseD: true})
 		}
-		groups = [][]Op{{{Op: "merge", File: 30, In: []int{seg, 1}, Drops: []DropSpec{{Kind: "nil"}, randDrops(r, len(b1))}, Mode: 0, Buf: 64}}, holder}
-		np = 2
+		// the merge partner brings a field of its own whose name sorts between the fields of the segment being read
+		mid := "a0"
+		for _, f := range fs {
+			if f != "_id" {
+				mid = f + "0"
+				break
+			}
+		}
+		sc.Universe = append(sc.Universe, mid)
+		sc.Batches = append(sc.Batches, Batch{Doc{{Name: "_id", Len: 1, Stored: true, Value: B([]byte("x9")), Terms: []TermOcc{{Term: B([]byte("x9")), Freq: 1, Locs: []Loc{}}}},
+			{Name: mid, Len: 1, Stored: true, Value: B([]byte("mv")), Terms: []TermOcc{{Term: B([]byte("mt")), Freq: 1, Locs: []Loc{}}}}}})
+		sc.Ops = append(sc.Ops, Op{Op: "build", Seg: 9, Batch: 1, Mode: 0})
+		groups = [][]Op{{{Op: "merge", File: 30, In: []int{seg, 9}, Drops: []DropSpec{randDrops(r, len(b1)), {Kind: "nil"}}, Mode: 0, Buf: 64}}, holder,
+			{{Op: "fields", Seg: seg}, {Op: "stored", Seg: seg, N: 0}, {Op: "fields", Seg: seg}, {Op: "stored", Seg: seg, N: len(b1) - 1}}}
+		after = append(after, Op{Op: "fields", Seg: seg}, Op{Op: "stored", Seg: seg, N: 0}, Op{Op: "observe", Seg: seg, Level: "light"},
+			Op{Op: "load", File: 30, Seg: 31, Backing: "mem"}, Op{Op: "observe", Seg: 31, Level: "light"})
+		np = 3
 	}
 	sched := make([]int, 6+r.Intn(20))
 	for k := range sched {
@@ -791,7 +820,11 @@ func genFaultMerge(r *rand.Rand, i int) Scenario {
 	}
 	sc.Ops = append(sc.Ops, Op{Op: "dict", Seg: 10, Field: "v"}, Op{Op: "dict", Seg: 10, Field: "_id"}, Op{Op: "dv_open", Seg: 10, R: 1, Fields: []string{"v"}}, Op{Op: "dv_visit", R: 1, N: 129}, Op{Op: "dv_visit", R: 1, N: 0},
 		// the input afterwards (the failure was transient): still the segment it was
-		Op{Op: "stored", Seg: 3, N: 128}, Op{Op: "stored", Seg: 3, N: 0}, Op{Op: "dict", Seg: 3, Field: "v"})
+		Op{Op: "stored", Seg: 3, N: 128}, Op{Op: "stored", Seg: 3, N: 0}, Op{Op: "dict", Seg: 3, Field: "v"},
+		// overlapping visits after the abandoned merge: whatever scratch objects it handed back are handed out again
+		Op{Op: "stored", Seg: 3, N: 129, Nested: &Op{Op: "stored", Seg: 2, N: 1}},
+		Op{Op: "stored", Seg: 2, N: 0, Nested: &Op{Op: "stored", Seg: 3, N: 5, Nested: &Op{Op: "stored", Seg: 3, N: 200 % n}}},
+		Op{Op: "stored", Seg: 3, N: 3, Nested: &Op{Op: "stored", Seg: 3, N: 130 % n}})
 	return sc
 }
 
@@ -1013,5 +1046,30 @@ func genAdvBoundary(r *rand.Rand, i int) Scenario {
 		sc.Ops = append(sc.Ops, Op{Op: "it_open", Pl: 11, It: it, Freq: true, Norm: true, Locs: true},
 			Op{Op: "it_adv", It: it, D: zs[0] + delta}, Op{Op: "it_next", It: it}, Op{Op: "it_next", It: it})
 	}
+	return sc
+}
+
+// fault_load: a file loaded through on-demand storage while one read of the Load call fails - every read in turn:
+// Load reports the failure, or returns the segment an undisturbed Load returns (C19, C04, C07: doc-value sections)
+func genFaultLoad(r *rand.Rand, i int) Scenario {
+	cfg := defaultCfg(r)
+	cfg.MinDocs, cfg.MaxDocs = 2, 7
+	cfg.DvNames = map[string]bool{}
+	for _, f := range cfg.Fields {
+		if r.Intn(3) != 0 {
+			cfg.DvNames[f] = true
+		}
+	}
+	sc := Scenario{Name: fmt.Sprintf("fault_load-%d", i), NormKind: "code", Universe: universeOf(&cfg), Tags: []string{"fault_load"}}
+	seq := 0
+	b1 := genBatch(r, &cfg, &seq)
+	b2 := genBatch(r, &cfg, &seq)
+	sc.Batches = []Batch{b1, b2}
+	sc.Ops = append(sc.Ops, Op{Op: "watchdog", Watchdog: 4000}, Op{Op: "build", Seg: 1, Batch: 0, Mode: pickMode(r)}, Op{Op: "build", Seg: 2, Batch: 1, Mode: pickMode(r)},
+		Op{Op: "persist", Seg: 1, File: 1}, Op{Op: "load", File: 1, Seg: 3, Backing: "mem"}, Op{Op: "observe", Seg: 3, Level: "full"},
+		Op{Op: "load_fsweep", File: 1},
+		Op{Op: "merge", File: 2, In: []int{1, 2}, Drops: []DropSpec{randDropsNotAll(r, len(b1)), randDropsNotAll(r, len(b2))}, Mode: pickMode(r), Buf: 64},
+		Op{Op: "load", File: 2, Seg: 4, Backing: "mem"}, Op{Op: "observe", Seg: 4, Level: "full"},
+		Op{Op: "load_fsweep", File: 2})
 	return sc
 }
